@@ -215,7 +215,7 @@ where
             assert!(o1[k] == o2[k], "C20: lookups, masks, join order or slice views differ between two identical worlds");
         }
     }
-    witness!(r.op == 3 && r1 != 0, "det: a removal that returned a value");
+    witness!(r1 != 0, "det: an operation that returned something");
     forget((s1, s2));
     forget((m1, m2));
     forget(env);
